@@ -17,8 +17,8 @@
 (* relation of the model checked in "alphabet mode" (NanoVMAlpha.tla) and  *)
 (* to judge every step of a trace recorded from the real VM                *)
 (* (NanoVMTrace.tla).  Deliberate deviations of the code are modelled as   *)
-(* the code behaves and named:  CLOSURE_NOT_RELEASED (CALL_INDIRECT never  *)
-(* releases the closure it pops).                                          *)
+(* the code behaves and named (none at present; the closure popped by      *)
+(* CALL_INDIRECT used to be leaked, see known_findings: F30, fixed).       *)
 (***************************************************************************)
 EXTENDS Integers, Sequences, FiniteSets, TLC
 
@@ -53,7 +53,6 @@ Occ(seq, id) == Cardinality({i \in 1..Len(seq) : seq[i] = id})
 InDeg(S, id) ==
      Occ(S.stack, id) + Occ(S.globals, id)
    + Cardinality({f \in 1..Len(S.frames) : S.frames[f].clo = id})
-   + Cardinality({<<o, i>> \in UNION {{<<o2, i2>> : i2 \in 1..Len(S.heap[o2].kids)} : o2 \in DOMAIN S.heap} : S.heap[o][i] = id /\ FALSE})
    + Cardinality(UNION {{<<o, i>> : i \in {j \in 1..Len(S.heap[o].kids) : S.heap[o].kids[j] = id}} : o \in DOMAIN S.heap})
 \* every live object is counted at least as often as it is referenced (C14)
 RcInv(S) == \A id \in DOMAIN S.heap : S.heap[id].rc >= InDeg(S, id)
@@ -112,7 +111,7 @@ DoRet(S) ==
             res == IF hasres THEN Top(S) ELSE 0
             S1 == IF hasres THEN PopN(S, 1) ELSE S
             locals == SubSeq(S1.stack, f.base + 1, SLen(S1))
-            h == ReleaseDown(S1.heap, locals, Len(locals))
+            h == Release(ReleaseDown(S1.heap, locals, Len(locals)), f.clo)     \* the frame owns the closure it was entered through
             S2 == [S1 EXCEPT !.stack = Append(SubSeq(@, 1, f.base), res), !.heap = h,
                              !.frames = SubSeq(@, 1, Len(@) - 1)] IN OKs(S2)
 
@@ -214,7 +213,7 @@ Do(S, op, a, aux, newid, res, cnew) ==
           IF SLen(S) < 1 THEN Trap(S)
           ELSE LET c == Top(S) IN
                IF KindOf(S, c) # KClosure \/ aux < 0 THEN Trap(PopN(S, 1))
-               ELSE EnterFrame(PopN(S, 1), aux \div 65536, aux % 65536, c)       \* CLOSURE_NOT_RELEASED: the popped reference is dropped
+               ELSE EnterFrame(PopN(S, 1), aux \div 65536, aux % 65536, c)       \* the popped reference moves into the frame (released by RET)
      [] op = "RET" -> DoRet(S)
      [] op \in {"PRINT", "PRINTLN", "ASSERT"} -> IF SLen(S) < 1 THEN OKs(S) ELSE OKs(PopN(S, 1))   \* the value travels to the host in the trap
      [] OTHER -> Unmodelled(S)
